@@ -92,6 +92,7 @@ def check_C18(ctx):
                  ["--bdump=.", "in.bcl"]):
         for prog in ("ok", "runtime_err"):
             add(argv, prog, "file", tag="dumpio")
+    add(["--bload=nosuch.bcb"], "ok", "none", tag="dumpio")
     add(["--bload", "/dev/null"], "ok", "none", tag="dumpio")
     add(["--bload", "."], "ok", "none", tag="dumpio")
     res0 = None
@@ -205,10 +206,13 @@ def check_C18(ctx):
             ctx.violation("the order of flags changed the outcome", dict(tag=tag), impl=group[:2], theorem="C18_flag_order", key="flag-order")
     # --bload of what --bdump wrote reproduces output and status (without -d/-s differences: plain run)
     bl = []
+    extra = []
     for cid, (c, fn, content, real) in dumps.items():
         bl.append(dict(id="bl-" + cid, argv=["--bload", fn] + [a for a in c["argv"] if a in ("-r",)], stdin_hex="",
                        files={fn: content}, flags=dict(file=fn, d=False, t=False, r="-r" in c["argv"], s=False, bdump=False, bload=True,
                                                        bdumpfile="", bloadfile="", help=False)))
+        for k, av in enumerate((["-d", "--bload", fn], ["--bload=" + fn], ["--bload=" + fn, "-d"])):
+            extra.append(dict(id="blx%d-%s" % (k, cid), argv=av, stdin_hex="", files={fn: content}, _prog=c["_prog"], _via="none", _tag="bloadx"))
     if bl:
         p2 = os.path.join(WORK, "C18_bload.cases.jsonl")
         with open(p2, "w") as f:
@@ -229,6 +233,48 @@ def check_C18(ctx):
                                             stderr=bytes.fromhex(got["stderr"]).decode("utf8", "replace")[:500]),
                                   model=dict(status=real["status"], stdout=bytes.fromhex(real["stdout"]).decode("utf8", "replace")[:500]),
                                   theorem="C18_bdump_bload", key="bdump-bload")
+    # loading what was dumped, with -d and in the --bload=FILE spelling: against the library mirror and the model of main.run
+    if extra:
+        ma = ctx.model([("cliargs", c["id"], F(*[a.encode("utf8") for a in c["argv"]])) for c in extra])
+        for c in extra:
+            c["flags"] = parse_model_args(ma.get(c["id"], "usage ?"))
+        p3 = os.path.join(WORK, "C18_bloadx.cases.jsonl")
+        with open(p3, "w") as f:
+            for c in extra:
+                f.write(json.dumps({k: v for k, v in c.items() if not k.startswith("_")}) + "\n")
+        rc, out, _ = sh([os.path.join(BUILD, "bclprobe"), "cli"], input=open(p3, "rb").read(), env=env, timeout=1800)
+        xres = {}
+        for line in out.splitlines():
+            if line.startswith("{"):
+                r = json.loads(line)
+                xres[r["id"]] = r
+        mx = ctx.model([("clirun", "run/" + c["id"], F(F(*[a.encode("utf8") for a in c["argv"]]), b"",
+                                                       F(*[x for k, v in sorted(c["files"].items()) for x in (k.encode("utf8"), bytes.fromhex(v))]), "o"))
+                        for c in extra])
+        norm = lambda b: re.sub(rb"[ \t]+", b" ", b)
+        for c in extra:
+            r = xres.get(c["id"])
+            if not r:
+                continue
+            ctx.count(1, casehash(json.dumps(c["argv"]), c["_prog"], "bloadx"))
+            real, mir = r["real"], r.get("mirror")
+            case = dict(argv=c["argv"], program=PROGS[c["_prog"]].decode("utf8", "replace")[:200], note="the file was written by --bdump of that program")
+            if mir is not None and (real["status"], real["stdout"], real["stderr"]) != (mir["status"], mir["stdout"], mir["stderr"]):
+                diff = [k for k in ("status", "stdout", "stderr") if real[k] != mir[k]]
+                ctx.violation("the tool and the library called in-process differ on: %s" % ",".join(diff), case,
+                              impl={k: (bytes.fromhex(real[k]).decode("utf8", "replace")[:400] if k != "status" else real[k]) for k in diff},
+                              model={k: (bytes.fromhex(mir[k]).decode("utf8", "replace")[:400] if k != "status" else mir[k]) for k in diff},
+                              theorem="C18_mirror", key="cli-differs:" + diff[0])
+            mr = dict(kv.split("=", 1) for kv in (mx.get("run/" + c["id"]) or "").split(" ") if "=" in kv)
+            if mr and "stdout" in mr and mr.get("err") != "MODEL":
+                if str(real["status"]) != mr["status"] or norm(bytes.fromhex(real["stdout"])) != norm(bytes.fromhex(mr["stdout"])):
+                    ctx.violation("the tool differs from the model of main.run (Model/CliRun.v) on a --bload run", case,
+                                  impl=dict(status=real["status"], stdout=bytes.fromhex(real["stdout"]).decode("utf8", "replace")[:500],
+                                            stderr=bytes.fromhex(real["stderr"]).decode("utf8", "replace")[:300]),
+                                  model={k: v[:300] for k, v in mr.items()}, theorem="C18_run_model", key="cli-model-bload")
+            elif (mx.get("run/" + c["id"]) or "").startswith("status=2") and real["status"] != 2:
+                ctx.violation("the tool accepts an argument vector the model of parseArgs rejects (or the reverse)", case, impl=real["status"],
+                              model=mx.get("run/" + c["id"]), theorem="C18_run_model", key="cli-model-usage")
     ctx.suite_stats["cli_model"] = dict(cases_compared_with_the_model_of_main_run=nmodel)
     ctx.suite_stats["cli"] = dict(cases=len(cases), statuses={str(k): v for k, v in stats.items()}, bdump_bload=len(bl))
     ctx.traces = len(cases)
